@@ -192,9 +192,17 @@ static void do_fork(int t)
     close(pfd[1]);
     struct pollfd pf = { pfd[0], POLLIN, 0 };
     char buf[64] = ""; int got = 0; long waited = 0;
+    int in_futex = 0;
     while (waited < 8000) {
         int pr = poll(&pf, 1, 200); waited += 200;
-        if (pr > 0) { ssize_t r = read(pfd[0], buf + got, sizeof buf - 1 - got); if (r <= 0) break; got += r; buf[got] = 0; if (strstr(buf, " g")) break; }
+        if (pr > 0) { ssize_t r = read(pfd[0], buf + got, sizeof buf - 1 - got); if (r <= 0) break; got += r; buf[got] = 0; in_futex = 0; if (strstr(buf, " g")) break; }
+        else {
+            /* a single-threaded child that sits in futex() for a whole second is waiting for a lock nobody in it can release: no need to wait 8 s */
+            char sp0[64], sc0[64] = ""; snprintf(sp0, sizeof sp0, "/proc/%d/syscall", (int) p);
+            int f0 = open(sp0, O_RDONLY); if (f0 >= 0) { ssize_t r0 = read(f0, sc0, sizeof sc0 - 1); if (r0 > 0) sc0[r0] = 0; close(f0); }
+            in_futex = !strncmp(sc0, "202 ", 4) ? in_futex + 1 : 0;
+            if (in_futex >= 5) break;
+        }
     }
     if (strstr(buf, "ok") && strstr(buf, " gok")) { child_status[t] = 1; snprintf(child_note[t], sizeof child_note[t], "%s", buf); }
     else {
